@@ -667,7 +667,7 @@ def histories(draw, tier="quick"):
     return {"contracts": list(contracts), "view": view, "observe": observe, "ops": ops}
 
 
-PARTS = [Part("histories", strategy=lambda tier: histories(tier), run=run_history, quick=6000, thorough=80000)]
+PARTS = [Part("histories", strategy=lambda tier: histories(tier), run=run_history, quick=5000, thorough=80000)]
 
 
 # ---------------------------------------------------------------------------------------------------
@@ -701,5 +701,5 @@ PARTS = [Part("histories", strategy=lambda tier: histories(tier), run=run_histor
 #   seeded/C14_B (static_hashing adds FutureChain month offset twice)           CAUGHT: was MISSED while all chains
 #       had month=0; chains now carry month 0/1/2.
 # Note: st.one_of() de-duplicates repeated strategy objects; op weights use distinct .map wrappers.
-# Unchanged tree: exit 0 for VERIF_SEED=1..5 (6000 histories, 39-51 s wall measured with load average 13-23 on 16
-# cores), 39-43% of the histories satisfy the non-trivial rule.
+# Unchanged tree: exit 0 for VERIF_SEED=1..5 (6000 histories: 39-51 s wall measured with load average 13-23 on 16
+# cores, ~105 s at load 35; the quick count was then set to 5000), 39-43% of the histories are non-trivial.
